@@ -305,10 +305,21 @@ class Ctx:
 
 
 def load_known():
-    p = os.path.join(VERIF, "known_findings.json")
-    if not os.path.exists(p):
-        return dict(findings=[], fixed=[])
-    return json.load(open(p))
+    """known_findings.json (committed, merged by vlib/manifest.py) plus the per-property source files."""
+    out = dict(findings=[], fixed=[])
+    files = [os.path.join(VERIF, "known_findings.json")] + sorted(glob.glob(os.path.join(VERIF, "props", "*", "findings.json")))
+    seen = set()
+    for p in files:
+        if not os.path.exists(p):
+            continue
+        d = json.load(open(p))
+        for k in ("findings", "fixed"):
+            for e in d.get(k, []):
+                key = json.dumps(e, sort_keys=True)
+                if key not in seen:
+                    seen.add(key)
+                    out[k].append(e)
+    return out
 
 
 def prepare_proofs(ctx):
